@@ -814,6 +814,8 @@ class Frame(object):
         if t in self.sc.unroll:
             return self.sc.unroll[t], t
         if isinstance(itv, ListV) and len(itv.elems) <= 12:
+            if any(isinstance(e, Sym) and e.text.startswith('*') for e in itv.elems):
+                return None, t          # (a, *rest): the starred part has unknown length - summarise
             return itv.elems, t
         if isinstance(itv, Const) and isinstance(itv.value, (tuple, list)) and len(itv.value) <= 12:
             return [Const(x) for x in itv.value], t
@@ -1284,6 +1286,8 @@ class Frame(object):
         if g.ifs or not isinstance(g.target, ast.Name):
             return None
         itv = self.ev(g.iter, st)
+        if isinstance(itv, EachV):
+            itv = ListV([itv], 'each')      # mapping over a summarised sequence maps its element: same summary, new element
         if not isinstance(itv, ListV) or len(itv.elems) > 12:
             return None
 
@@ -1293,6 +1297,8 @@ class Frame(object):
             s2 = st.fork()
             s2.env[g.target.id] = e
             return self.ev(node.elt, s2)
+        if itv.kind == 'each':
+            return apply(itv.elems[0])
         return ListV([apply(e) for e in itv.elems], 'list')
 
     def _comp(self, node, st, br):
@@ -1565,6 +1571,8 @@ class Frame(object):
                     for e in args[0].elems:
                         its.extend(as_items(e))
                     return Bytes(its)
+                if isinstance(args[0], EachV) and not merge_consts(recv.items):
+                    return Bytes(as_items(args[0]))     # b''.join(<comprehension>) == the loop that appends each element
                 if not merge_consts(recv.items):
                     return Bytes([('SYM', 'join(%s)' % render(args[0]))])
                 return Bytes([('SYM', '%s.join(%s)' % (render(recv), render(args[0])))])
@@ -1656,6 +1664,8 @@ class Frame(object):
                     return Bytes([('C', bytes(a.value))])
                 if isinstance(a, Sym) and a.text.startswith('[') and ' for ' not in a.text:
                     return Bytes([('SYM', a.text)])
+                if isinstance(a, Sym) and st.bound.get(a.text, '').startswith('range('):
+                    return Bytes([('REP', [('C', b'\x00')], a.text)])      # bytes(i), i an index of a range: i zero octets
                 if isinstance(a, Const) and isinstance(a.value, int):
                     return Bytes([('REP', [('C', b'\x00')], render(a))])
                 return Bytes([('SYM', a.text if isinstance(a, Sym) else render(a))])
